@@ -126,6 +126,8 @@ class PathGen:
                 p = MolT(key=lit(self.r.choice(list(dn.keys()))) if self.r.random() < 0.5 else cnd(self.key_cond(dn)),
                          index=lit(self.r.randrange(len(ln))) if self.r.random() < 0.5 else cnd(self.index_cond(ln)),
                          value=cnd(self.value_cond(vn)) if self.r.random() < 0.65 else None, label=self.label())
+            if parts and parts[-1].explicit and self.r.random() < 0.07:
+                p = parts[-1]        # the same part (the very same object once built) again, one level further down
             parts.append(p)
             new = []
             for nd in frontier[:6]:
@@ -204,3 +206,33 @@ class PathGen:
             sel = self.select(mol, dn) + self.select(mol, ln)
             parts.append(self.part_for(r.choice(sel) if sel else None))
         return top, PathT(parts, [])
+
+    def repeated_part_path(self, doc, mods_p=0.6):
+        """A path that uses ONE part object at several positions (step = MapValue(); DataPath(step, step, step)), mostly with a
+        multiplicity modifier, over a document nested deeply enough for it.  Returns (document, path): half of the time the document
+        is one whose FIRST branch is a dead end below the second level while a later branch goes all the way down."""
+        r, g = self.r, self.g
+        k = r.random()
+        n = r.choice([2, 3, 3, 4])
+        if r.random() < 0.5:
+            kind = r.choice(["dict", "list"])
+
+            def mk(items):
+                return list(items) if kind == "list" else {key: x for key, x in zip(["a", "b", "c", "key"], items)}
+            deep = mk([g.scalar(), g.scalar()])
+            for _ in range(n - 2):
+                deep = mk([deep, mk([g.scalar()])])
+            dead = mk([g.scalar(), mk([])])
+            doc = mk([dead, deep] if r.random() < 0.7 else [dead, g.scalar(), deep])
+            step = (ListT() if kind == "list" else MapT()) if k < 0.7 else MolT()
+        else:
+            step = MapT() if k < 0.4 else (ListT() if k < 0.6 else (MolT() if k < 0.8 else self.part_for(doc, explicit_p=1.0)))
+        parts = [step] * n
+        if r.random() < 0.2:
+            parts = [self.part_for(doc)] + parts[:-1]
+        mods = []
+        if r.random() < mods_p:
+            mods.append(r.choice(["first", "first", "last", "all"]))
+        if r.random() < 0.3:
+            mods.insert(r.randint(0, len(mods)), r.choice(["length", "dtype"]))
+        return doc, PathT(parts, mods)
